@@ -51,6 +51,7 @@ ASSUMPTIONS = [a for a in rc.COMMON_ASSUMPTIONS if not a.startswith("synchronous
     "(a rotation under a second open handle sends that instance's records to the archived file - outside the "
     "property, which speaks of restarts)",
 ]
+RELEASE_TOO = True          # the cases also run through the release-profile harness (see ./check)
 EXHAUSTIVE = {"quick": False, "thorough": False}
 
 
